@@ -92,6 +92,7 @@ async fn create_stream(h: &mut Harness, c: usize, id: Option<u32>, name: &str) {
         if details.name != name || details.topics_count != 0 || details.messages_count != 0 {
             h.violate("C13", "response_fields", "create_stream", format!("create_stream response {details:?} for name {name}"));
         }
+        h.journalled_names.push(name.to_string());
         h.model.streams.insert(details.id, MStream { id: details.id, name: name.to_string(), topics: BTreeMap::new(), created_at: Some(details.created_at.as_micros()) });
         let _ = now;
     }
@@ -218,6 +219,7 @@ async fn create_topic(h: &mut Harness, c: usize, stream: &IdRef, id: Option<u32>
             created_at: Some(details.created_at.as_micros()),
             balanced_history: Vec::new(),
         };
+        h.journalled_names.push(name.to_string());
         compare_topic_details(h, sid, &topic, &details, "create_topic_response");
         h.model.streams.get_mut(&sid).unwrap().topics.insert(details.id, topic);
     }
